@@ -176,8 +176,9 @@ def convert_to_lut(op, lut_values, lut_name):
 
 
 def create_lut_8bit_op(op, lut_fn, fn_name):
-    ifm_scale = op.ifm.quantization.scale_f32
-    ofm_scale = op.ofm.quantization.scale_f32
+    # The scales are np.float32 when they come from a model file: widen them, or the function value is rescaled in float32
+    ifm_scale = np.double(op.ifm.quantization.scale_f32)
+    ofm_scale = np.double(op.ofm.quantization.scale_f32)
     zp_in = op.ifm.quantization.zero_point
     zp_out = op.ofm.quantization.zero_point
 
